@@ -10,8 +10,8 @@ BASELINE_OFF = ("cd /repo && go build ./... && go test -mod=mod -json -vet=off -
 # id -> (technique, level text, level note, design ref)
 CLAIMS = {
     "C01": (
-        "path-sensitive enumeration of every return of the request-body adapters' Read (named results and boolean phis resolved along the path, pure expressions canonicalised) for the provenance of io.EOF; dominance of sendBuffer() by a successful advanceToStage(stageSend); who-may-call the stage helpers; must-pass of the buffer reset",
-        "Very narrow claim at level 'other': three structural clauses of 'same count, nothing dropped or prefixed' (C01.1-C01.3). Field-for-field equality of message values across codecs/compressions is value semantics and is NOT decided by this family (see DESIGN.md, D12 is out of reach).",
+        "path-sensitive enumeration of every return of the request-body adapters' Read (named results and boolean phis resolved along the path, pure expressions canonicalised) for the provenance of io.EOF; dominance of sendBuffer() by a successful advanceToStage(stageSend); who-may-call the stage helpers; must-pass of the buffer reset; path enumeration of the stage function's decision table (skip / decompress / decode / encode / recompress) and direction-indexed side selection of codec and compression pool",
+        "Very narrow claim at level 'other': five structural clauses of 'same count, nothing dropped or prefixed, every needed conversion step taken with the right side's codec' (C01.1-C01.5). Field-for-field equality of message values across codecs/compressions is value semantics and is NOT decided by this family (see DESIGN.md, D12 is out of reach).",
         "Trusts io.Reader/bytes.Buffer contracts. Everything about payload values is outside the claim.",
         "DESIGN.md section 6, C01",
     ),
@@ -52,20 +52,20 @@ CLAIMS = {
         "DESIGN.md section 6, C16",
     ),
     "C02": (
-        "origin tracing of the request metadata and negotiated server cells, dominating membership facts, read=>delete pairing on header maps, constant folding of envelope encoders/decoders over all 256 flag bytes, origin equality between envelope length and payload bound, dominating limit checks for narrowing conversions",
-        "Structural necessary conditions of 'the backend sees a valid request in a protocol/codec/compression it accepts', decided for every path and every call site (C02.1-C02.7). Level 'other': a rule set over the SSA form; values of headers and payload bytes are not decided.",
+        "origin tracing of the request metadata and negotiated server cells, dominating membership facts, read=>delete pairing on header maps, constant folding of envelope encoders/decoders over all 256 flag bytes, origin equality between envelope length and payload bound, dominating limit checks for narrowing conversions, constant extraction of the Content-Type prefixes each protocol writes and path-sensitive reading of the request classifier's content-type tests against the wire formats' table",
+        "Structural necessary conditions of 'the backend sees a valid request in a protocol/codec/compression it accepts', decided for every path and every call site (C02.1-C02.8). Level 'other': a rule set over the SSA form; values of headers and payload bytes are not decided.",
         "Trusts go/types + go/ssa, the constant folder in checker/vg/fold.go (pure integer/boolean fragments only), the wire-format reference tables in checker/vg/envelope.go.",
         "DESIGN.md section 6, C02",
     ),
     "C03": (
-        "who-may-call over the call graph, dominating guard facts (endWritten / headersFlushed / error cell), must-pass of flag stores on every exit path, origin equality envelope length <-> bound, Content-Length <-> written buffer pairing",
-        "Structural necessary conditions of 'exactly one valid terminal disposition, frames and Content-Length agree with the bytes written' (C03.1-C03.6), decided path-completely. Level 'other'.",
+        "who-may-call over the call graph, dominating guard facts (endWritten / headersFlushed / error cell), must-pass of flag stores on every exit path, origin equality envelope length <-> bound, Content-Length <-> written buffer pairing, per-path evidence rules for error-cell stores and Content-Encoding announcements, Content-Type prefix table per client protocol",
+        "Structural necessary conditions of 'exactly one valid terminal disposition, frames and Content-Length agree with the bytes written' (C03.1-C03.10), decided path-completely. Level 'other'.",
         "Trusts go/types + go/ssa and the module call graph. Does not decide validity of body bytes or declared compression for un-enveloped clients.",
         "DESIGN.md section 6, C03",
     ),
     "C04": (
-        "interval analysis of table indices under dominating comparisons, extraction of the RPC->HTTP literal and constant folding of the HTTP->RPC switch over 100..599 compared with the published mapping, constant folding of the percent-escape predicate over all 256 bytes, reachability of the mapping from every server protocol, writer/reader key-set agreement",
-        "Decides that no out-of-range code can index past the tables, that both code tables equal the published mapping for every input in their finite domain, that all five backends use them, and that gRPC status keys / percent-encoding are written and read as pairs (C04.1-C04.5). Level 'other'; tables are finite so the table clauses are exhaustive.",
+        "interval analysis of table indices under dominating comparisons, extraction of the RPC->HTTP literal and constant folding of the HTTP->RPC switch over 100..599 compared with the published mapping, constant folding of the percent-escape predicate over all 256 bytes, reachability of the mapping from every server protocol, writer/reader key-set agreement, constant evaluation of the separators with which the gRPC-Web in-body trailer block is split",
+        "Decides that no out-of-range code can index past the tables, that both code tables equal the published mapping for every input in their finite domain, that all five backends use them, and that gRPC status keys / percent-encoding are written and read as pairs (C04.1-C04.6). Level 'other'; tables are finite so the table clauses are exhaustive.",
         "Trusts the reference tables transcribed in checker/vg/c04.go from the Connect/gRPC specifications, and the folder's integer semantics.",
         "DESIGN.md section 6, C04",
     ),
@@ -106,26 +106,26 @@ CLAIMS = {
         "DESIGN.md section 6, C15",
     ),
     "C17": (
-        "return-shape check of NewTranscoder, error-propagation check at every static call of an error-returning module function under NewTranscoder, structural witnesses (guard edge leads only to error returns) for each listed validation, loop-carried-flag analysis, path-sensitive binding condition of rule selectors, copy-per-iteration and map-replacement checks for option resolution",
-        "Decides that configuration errors are never swallowed, that each validation named by the property exists as an error edge, that a selector binds only on exact match or wildcard prefix, and that per-service options override (not mutate) defaults (C17.1-C17.4). Level 'other'; the exact accept/reject boundary is not decided.",
+        "return-shape check of NewTranscoder, error-propagation check at every static call of an error-returning module function under NewTranscoder, structural witnesses (guard edge leads only to error returns) for each listed validation, loop-carried-flag analysis, path-sensitive binding condition of rule selectors, copy-per-iteration and map-replacement checks for option resolution, cycle analysis of the template parser's segment loop (every iteration passes the seen-'**' test)",
+        "Decides that configuration errors are never swallowed, that each validation named by the property exists as an error edge, that a selector binds only on exact match or wildcard prefix, and that per-service options override (not mutate) defaults (C17.1-C17.5). Level 'other'; the exact accept/reject boundary is not decided.",
         "Trusts go/ssa loop structure (dominators).",
         "DESIGN.md section 6, C17",
     ),
     "C18": (
-        "SSA path/dominance rules: must-pass-through and may-reach over the CFG of ServeHTTP and its callees, who-may-call over a CHA call graph, origin tracing of the cancel/context pair",
-        "Structural necessary conditions decided for every path of the code (not sampled): one dispatch event per path, none after/before a rejection, dispatch only under a successful validation (or not-found + unknown handler), deferred cancel paired with the context handed to the handler, no goroutines/timers. Level 'other': a static rule set, close to complete for this property because the property is about the shape of control flow.",
+        "SSA path/dominance rules: must-pass-through and may-reach over the CFG of ServeHTTP and its callees, who-may-call over a CHA call graph, origin tracing of the cancel/context pair, read/delete effect sets of each client protocol's header extraction against the headers validation inspects afterwards",
+        "Structural necessary conditions decided for every path of the code (not sampled): one dispatch event per path, none after/before a rejection, dispatch only under a successful validation (or not-found + unknown handler), deferred cancel paired with the context handed to the handler, no goroutines/timers, a rejection signal validation still reads is not removed unread by a protocol's extraction. Level 'other': a static rule set, close to complete for this property because the property is about the shape of control flow.",
         "Trusts go/types + go/ssa lowering, the module call graph (static + CHA + signature-matched function values; VTA cross-check in thorough), and net/http calling ServeHTTP once per request. Does not decide what handlers do after returning.",
         "DESIGN.md section 6, C18",
     ),
     "C19": (
-        "path-sensitive enumeration of the GET predicates and of method resolution (boolean phis resolved per path), dominating facts at the GET return of the request-line builder, origin check of every store to Request.Method",
-        "Decides that GET is accepted only for NO_SIDE_EFFECTS methods with HTTP method GET, issued only under the three-way conjunction and within the URL limit, and carries no body (C19.1-C19.3). Level 'other'; exactness of the URL length arithmetic and GET/POST message equality are not decided.",
+        "path-sensitive enumeration of the GET predicates and of method resolution (boolean phis resolved per path), dominating facts at the GET return of the request-line builder, origin check of every store to Request.Method, must-pass of the keep-store in the query accessor",
+        "Decides that GET is accepted only for NO_SIDE_EFFECTS methods with HTTP method GET, issued only under the three-way conjunction and within the URL limit, and carries no body (C19.1-C19.4). Level 'other'; exactness of the URL length arithmetic and GET/POST message equality are not decided.",
         "Trusts descriptorpb's enum constant.",
         "DESIGN.md section 6, C19",
     ),
     "C20": (
-        "must-pass of the dynamicpb fallback on the NotFound edge, enumeration of generated-type assumptions (proto.GetExtension, single-value assertions, package-level descriptors used on messages), range-loop must-pass in the gRPC wrapper, path-sensitive identity condition for choosing global types",
-        "Only necessary clauses of schema-source independence are decided (C20.1-C20.4); equivalence of dynamic and generated schemas over all traffic is metamorphic and not decided. Level 'other' (narrow).",
+        "must-pass of the dynamicpb fallback on the NotFound edge, enumeration of generated-type assumptions (proto.GetExtension, single-value assertions, package-level descriptors used on messages), range-loop must-pass in the gRPC wrapper, path-sensitive identity condition for choosing global types, enumeration of descriptor identity comparisons",
+        "Only necessary clauses of schema-source independence are decided (C20.1-C20.5); equivalence of dynamic and generated schemas over all traffic is metamorphic and not decided. Level 'other' (narrow).",
         "Trusts protoregistry/dynamicpb contracts.",
         "DESIGN.md section 6, C20",
     ),
